@@ -220,8 +220,147 @@ theorem c08_out_units (p : Pkt) (ts : List Bytes) (h : decode p = .ok ts) :
     rw [hnil] at h2
     simp only [List.length_nil] at h2
     rw [← h2] at hl
-    simp at hl; exact h0 hl
+    simp at hl; exact h0 (by simp [hl])
   · simp at h
+
+
+/-! ## C03 — a group comes back as the concatenation of the per-packet groups -/
+
+def ValidGroup (g : List Bytes) : Prop := g ≠ [] ∧ ∀ t ∈ g, t.length = tsSize ∧ t.head? = some syncByte
+
+theorem flatten_length_valid (g : List Bytes) (h : ∀ t ∈ g, t.length = tsSize) :
+    g.flatten.length = g.length * tsSize := by
+  induction g with
+  | nil => simp
+  | cons t g ih =>
+    simp only [List.flatten_cons, List.length_append, List.length_cons, Nat.succ_mul]
+    rw [ih (fun t ht => h t (by simp [ht])), h t (by simp)]
+    omega
+
+theorem pack_valid (g : List Bytes) (h : ∀ t ∈ g, t.length = tsSize) : pack g = g.flatten := by
+  have := flatten_length_valid g h
+  simp only [pack]
+  rw [← this, List.take_length, Nat.sub_self]
+  simp
+
+theorem splitTs_flatten_valid (g : List Bytes)
+    (h : ∀ t ∈ g, t.length = tsSize ∧ t.head? = some syncByte) :
+    splitTs g.length g.flatten = some g := by
+  induction g with
+  | nil => simp [splitTs]
+  | cons t g ih =>
+    obtain ⟨hl, hh⟩ := h t (by simp)
+    have ht : t ≠ [] := by intro e; rw [e] at hl; simp [tsSize, CodecMisc.mpegtsPacketSize] at hl
+    have hhead : (t ++ g.flatten).head? = some syncByte := by
+      cases t with
+      | nil => exact absurd rfl ht
+      | cons a t' => simpa using hh
+    simp only [List.flatten_cons, List.length_cons, splitTs, hhead, ne_eq, not_true_eq_false,
+      if_false]
+    rw [List.drop_left' hl, List.take_left' hl, ih (fun t ht => h t (by simp [ht]))]
+    simp
+
+/-- one packet: a valid group packed by the encoder decodes to exactly that group -/
+theorem decode_pack (g : List Bytes) (hg : ValidGroup g) (pt : UInt8) (sq : UInt16) (ts ssrc : UInt32)
+    (m : Bool) : decode { pt := pt, seq := sq, ts := ts, ssrc := ssrc, marker := m, payload := pack g } = .ok g := by
+  obtain ⟨hne, hv⟩ := hg
+  have hlen := flatten_length_valid g (fun t ht => (hv t ht).1)
+  have hpos : 0 < g.length := List.length_pos_iff.mpr hne
+  unfold decode
+  simp only [pack_valid g (fun t ht => (hv t ht).1), hlen]
+  have h0 : g.length * tsSize ≠ 0 := by
+    simp [tsSize, CodecMisc.mpegtsPacketSize]; omega
+  have hm : g.length * tsSize % tsSize = 0 := Nat.mul_mod_left _ _
+  have hd : g.length * tsSize / tsSize = g.length := Nat.mul_div_cancel _ (by decide)
+  simp only [h0, if_false, hm, ne_eq, not_true_eq_false, hd, splitTs_flatten_valid g hv]
+
+/-- the groups the encoder forms -/
+def groups (per : Nat) : Nat → List Bytes → List (List Bytes)
+  | 0, _ => []
+  | 1, rest => [rest]
+  | n + 2, rest => rest.take per :: groups per (n + 1) (rest.drop per)
+
+theorem groups_flatten (per n : Nat) (rest : List Bytes) : (groups per (n + 1) rest).flatten = rest := by
+  induction n generalizing rest with
+  | zero => simp [groups]
+  | succ n ih => simp [groups, ih]
+
+theorem run_emit (c : EncCfg) (per n : Nat) (sq : UInt16) (rest : List Bytes) (hper : 0 < per)
+    (hv : ∀ t ∈ rest, t.length = tsSize ∧ t.head? = some syncByte) (hlo : n * per < rest.length) :
+    runDec (emit c per (n + 1) sq rest) = (groups per (n + 1) rest).map .ok ∧
+    ∀ g ∈ groups per (n + 1) rest, ValidGroup g := by
+  induction n generalizing sq rest with
+  | zero =>
+    have hg : ValidGroup rest := ⟨by intro e; rw [e] at hlo; simp at hlo, hv⟩
+    simp only [emit, groups, runDec, List.map_cons, List.map_nil]
+    exact ⟨by rw [decode_pack rest hg], by simpa using hg⟩
+  | succ n ih =>
+    have hmul : (n + 1) * per = n * per + per := by rw [Nat.add_mul]; omega
+    have hg : ValidGroup (rest.take per) := by
+      refine ⟨?_, fun t ht => hv t (List.mem_of_mem_take ht)⟩
+      intro e
+      have := congrArg List.length e
+      simp only [List.length_take, List.length_nil] at this
+      omega
+    obtain ⟨h1, h2⟩ := ih (sq + 1) (rest.drop per) (fun t ht => hv t (List.mem_of_mem_drop ht))
+      (by simp only [List.length_drop]; omega)
+    simp only [emit, groups, runDec, List.map_cons]
+    refine ⟨by rw [decode_pack _ hg, h1], ?_⟩
+    intro g hgm
+    simp only [List.mem_cons] at hgm
+    rcases hgm with hgm | hgm
+    · subst hgm; exact hg
+    · exact h2 g hgm
+
+/-- **C03 round trip (group formats)**: for every valid limit and every valid group, every packet
+decodes to a non-empty valid group of TS packets and the concatenation of the outputs is exactly
+the input group, in order. -/
+theorem c03_roundtrip_grouping (e : Enc) (ts : List Bytes) (hc : ValidCfg e.cfg) (hf : ValidFrame ts) :
+    ∃ gs : List (List Bytes), runDec (encode e ts).2 = gs.map .ok ∧ gs.flatten = ts ∧
+      ∀ g ∈ gs, ValidGroup g := by
+  obtain ⟨hne, hv⟩ := hf
+  have hper := per_pos e.cfg hc
+  have hlen : 0 < ts.length := List.length_pos_iff.mpr hne
+  have hp := ceilDiv_pos ts.length _ hper hlen
+  have hlow := ceilDiv_lower ts.length _ hper hlen
+  unfold encode
+  simp only
+  generalize hn : ts.length / (e.cfg.max / tsSize) + (if ts.length % (e.cfg.max / tsSize) ≠ 0 then 1 else 0) = n
+  have hn' : ceilDiv ts.length (e.cfg.max / tsSize) = n := hn
+  rw [hn'] at hp hlow
+  obtain ⟨k, hk⟩ := Nat.exists_eq_succ_of_ne_zero (Nat.pos_iff_ne_zero.mp hp)
+  subst hk
+  obtain ⟨h1, h2⟩ := run_emit e.cfg _ k e.seq ts hper hv (by simpa using hlow)
+  exact ⟨_, h1, groups_flatten _ _ _, h2⟩
+
+/-- **C03, group that fits**: a group of at most `PayloadMaxSize / 188` TS packets travels in one
+packet and comes back whole. -/
+theorem c03_fits_single (e : Enc) (ts : List Bytes) (hc : ValidCfg e.cfg) (hf : ValidFrame ts)
+    (hfit : ts.length ≤ e.cfg.max / tsSize) : runDec (encode e ts).2 = [.ok ts] := by
+  obtain ⟨hne, hv⟩ := hf
+  have hper := per_pos e.cfg hc
+  have hlen : 0 < ts.length := List.length_pos_iff.mpr hne
+  have hn : ts.length / (e.cfg.max / tsSize) + (if ts.length % (e.cfg.max / tsSize) ≠ 0 then 1 else 0) = 1 := by
+    rcases Nat.lt_or_eq_of_le hfit with h | h
+    · rw [Nat.div_eq_of_lt h, Nat.mod_eq_of_lt h]; simp; omega
+    · rw [h, Nat.div_self hper, Nat.mod_self]; simp
+  unfold encode
+  simp only [hn, emit, runDec]
+  rw [decode_pack ts ⟨hne, hv⟩]
+
+/-! ## non-vacuity -/
+
+def exTs (b : UInt8) : Bytes := syncByte :: List.replicate 187 b
+def exEnc : Enc := { cfg := { pt := 33, ssrc := 5, max := 400 }, seq := 65535 }
+
+set_option maxRecDepth 20000 in
+example : ValidCfg exEnc.cfg ∧ ValidFrame [exTs 1, exTs 2, exTs 3] := by decide
+-- three TS packets at limit 400 (two per packet) travel as 2 + 1 across a sequence-number wrap
+set_option maxRecDepth 20000 in
+example : (encode exEnc [exTs 1, exTs 2, exTs 3]).2.map (fun p => (p.seq, p.payload.length)) = [(65535, 376), (0, 188)] := by
+  decide
+set_option maxRecDepth 20000 in
+example : runDec (encode exEnc [exTs 1, exTs 2, exTs 3]).2 = [.ok [exTs 1, exTs 2], .ok [exTs 3]] := by decide
 
 /-- the decoder has no state: the answer to a packet does not depend on the history -/
 theorem c07_history_independent (h ps : List Pkt) : runDec (h ++ ps) = runDec h ++ runDec ps := by
